@@ -246,6 +246,10 @@ func (fs *FS) OpenFile(name string, flag int, perm hackpadfs.FileMode) (afFile h
 
 // Remove implements hackpadfs.RemoveFS
 func (fs *FS) Remove(name string) error {
+	if name == "." {
+		// the root directory cannot be removed
+		return fs.wrapperErr("remove", name, hackpadfs.ErrInvalid)
+	}
 	file, err := fs.getFile(name)
 	if err != nil {
 		return fs.wrapperErr("remove", name, err)
@@ -265,6 +269,10 @@ func (fs *FS) Remove(name string) error {
 
 // Rename implements hackpadfs.RenameFS
 func (fs *FS) Rename(oldname, newname string) error {
+	if oldname == "." && newname != "." {
+		// the root directory cannot be moved
+		return &hackpadfs.LinkError{Op: "rename", Old: oldname, New: newname, Err: hackpadfs.ErrInvalid}
+	}
 	oldFile, err := fs.getFile(oldname)
 	if err != nil {
 		return &hackpadfs.LinkError{Op: "rename", Old: oldname, New: newname, Err: hackpadfs.ErrNotExist}
